@@ -184,6 +184,13 @@ def C13(tier):
                                       optionsA=dict(rule=rule, arithmetic='fixed', precision=p, **om),
                                       optionsB=dict(rule=rule, arithmetic='guarded', precision=p, guard=0, **om), ignore_msgs=False,
                                       budget=300 if quick else 1500, cfg='g0-vs-fixed p=%d' % p))
+    # display digits different from the precision (they must not influence the comparison tolerance or the count)
+    for rule, om in (('wigm', {}), ('meek', {'omega': 2})):
+        for d in (0, 1):
+            r['jobs'].append(djob('opts', rule, {}, 3, 2, 3, 5, optionsA=dict(rule=rule, arithmetic='fixed', precision=3, display=d, **om),
+                                  optionsB=dict(rule=rule, arithmetic='guarded', precision=3, guard=0, display=d, **om), budget=300 if quick else 1500,
+                                  cfg='g0-vs-fixed p=3 display=%d' % d))
+    r['jobs'].append(djob('gq', 'wigm', {'display': 2}, 3, 2, 2, 4, p=4, g=4, budget=300 if quick else 1500, weight=5))
     # a tally landing exactly on the rounded-up quota needs a coarse precision and a few more ballots
     r['jobs'].append(djob('opts', 'wigm', {}, 3, 2, 2, 7, optionsA=dict(rule='wigm', arithmetic='fixed', precision=1),
                           optionsB=dict(rule='wigm', arithmetic='guarded', precision=1, guard=0), budget=300 if quick else 1500, cfg='g0-vs-fixed p=1 N<=7', weight=6))
